@@ -131,6 +131,14 @@ def table_m(facts, rep, rule_guard, rule_kind, self_ty=MEM, trait="FileSystem", 
                 rep.fail(rule_guard, b.id, "append_file: writer hand-out present", "no writer construction found", b.span)
             for cb, bb, adt, line in hs:
                 need(op, b, cb, bb, line, "writer", ["E", "F"], "writer hand-out")
+            # opening for append leaves the stored entry as it is until the writer publishes (the only change a hand-out
+            # operation may make is the documented access-time bump of open_file)
+            touched = [(fld, line) for cb, bb, fld, line, base in mm.field_writes(b)] + [(sh, line) for cb, bb, sh, key, line in muts]
+            n += 1
+            rep.ob(rule_guard, b.id, "append_file: the stored entry is not modified", not touched,
+                   "" if not touched else "append_file writes %s of the stored entry: until the writer is dropped every other call sees "
+                   "the file in that intermediate state (e.g. emptied), which no sequential order of the calls explains" % touched[0][0],
+                   touched[0][1] if touched else b.span)
         elif op == "open_file":
             hs = mm.handle_sites(b, ("ReadableFile",))
             if not hs:
@@ -203,6 +211,15 @@ def failed_primitive_unchanged(facts, rep, rule, mm):
         b = mm.ops.get(op)
         if b is None:
             continue
+        # a write handle publishes when it is dropped: building it is a deferred mutation, so it may only be built once
+        # nothing can fail any more (an early `?` return would drop it and publish an empty file over whatever is there)
+        for cb, bb, adt, line in mm.handle_sites(b, ("WritableFile",)):
+            bad = mm.err_reachable_after(cb, bb)
+            n += 1
+            rep.ob(rule, b.id, "%s: no Err return after the write handle was built" % op, not bad,
+                   "the handle is the last thing built" if not bad else
+                   "an Err return is reachable after the write handle was constructed: the handle is dropped on that path and its "
+                   "Drop publishes an (empty) file although the call failed", line)
         for cb, bb, sh, key, line in mm.mutation_sites(b):
             bad = mm.err_reachable_after(cb, bb)
             n += 1
@@ -235,6 +252,8 @@ def run(facts, rep, tier, ctx):
         c09.table_u(facts, rep, ws, rule="R01.5")
         # creating below a lower-layer directory must succeed whenever the union shows the parent (parent chain mirrored)
         c09.materialisation_rules(facts, rep, ws, rule="R01.5p")
+        # "target is missing" is decided through the resolver (own deletion marker first) for listings as for everything else
+        c09.listing_rules(facts, rep, ws, rule="R01.5l")
         # a failed overlay removal must leave the union unchanged: marker only after the upper copy is gone
         from . import c10
         c10.marker_rules(facts, rep, ws, prefix="R01.5m", only=("R10.1", "R10.3"))
@@ -254,7 +273,7 @@ def run(facts, rep, tier, ctx):
         k4 = physrules.table_o_shape(facts, A, "R01.4", wa)
         from . import c07, c09, c10
         k5 = c07.delegation(facts, A, wa, rule="R01.5") + c09.table_u(facts, A, wa, rule="R01.5") + \
-            c09.materialisation_rules(facts, A, wa, rule="R01.5p") + \
+            c09.materialisation_rules(facts, A, wa, rule="R01.5p") + c09.listing_rules(facts, A, wa, rule="R01.5l") + \
             c10.marker_rules(facts, A, wa, prefix="R01.5m", only=("R10.1", "R10.3"))
         rep.floor("async-world contract obligations", k + k2 + k3 + k4 + k5, 150)
     rep.assume("Table O (what the OS enforces per std call) is frozen from POSIX/Linux semantics")
